@@ -160,6 +160,22 @@ pub trait ReferenceProcessor<Params, MapResult, ReduceResult>
     ///
     /// The result of the reduce operation, or `None` if the operation failed.
     fn reduce(map_result: &[MapResult]) -> Option<ReduceResult>;
+
+    /// If mapping the given file may consume reference IDs, the value the next reference ID will have
+    /// once it has. It's recorded in the lock file *before* the file is touched, so that the lock
+    /// file is never behind the IDs present in the code, whatever happens to the process afterwards.
+    ///
+    /// # Arguments
+    ///
+    /// * `params` - Any parameters to pass to the processor.
+    /// * `entries` - The log reference entries found in the file.
+    fn next_reference_id_to_record(
+        _params: &Option<Params>,
+        _entries: &[parser::LogRefEntry],
+    ) -> Option<u32>
+    {
+        None
+    }
 }
 
 /// A reference processor for determining the next available contiguous reference in a code base. As with
@@ -575,6 +591,25 @@ impl ReferenceProcessor<Arc<AtomicU32>, InsertReferencesResult, InsertReferences
         }
     }
 
+    fn next_reference_id_to_record(
+        params: &Option<Arc<AtomicU32>>,
+        entries: &[parser::LogRefEntry],
+    ) -> Option<u32>
+    {
+        let num_missing_refs = entries
+            .iter()
+            .filter(|&e| !e.exists() && e.usable_reference_position())
+            .count();
+
+        match params
+        {
+            Some(next_id) if num_missing_refs > 0 => next_id
+                .load(std::sync::atomic::Ordering::Relaxed)
+                .checked_add(num_missing_refs as u32),
+            _ => None,
+        }
+    }
+
     fn reduce(map_results: &[InsertReferencesResult]) -> Option<InsertReferencesResult>
     {
         let mut insert_count: usize = 0;
@@ -651,6 +686,16 @@ where
                     file_contents.len(),
                     &references,
                 );
+
+                if let Some(id) =
+                    ProcessorType::next_reference_id_to_record(&params_task_inner, &references)
+                {
+                    if !context.cache_next_reference_id(id, context.config.config_dir.as_str())
+                    {
+                        /* IDs that can't be recorded mustn't be handed out. */
+                        return None;
+                    }
+                }
 
                 if let Some(map_result) =
                     ProcessorType::map(&path, &file_contents, &params_task_inner, &references).await
